@@ -86,6 +86,10 @@ def _events(args):
                     o = E.outcome(lambda: read_bed12(str(obj.to_bed12(name=nm, chromosome_relative_coordinates=w is None))))
                 ev.append(["bed", [blocks, st], [cds, st] if (cds and kind == "tx") else [[], "e"], w[0] if w else 0,
                            w is not None, want, o, w[1] if minus else -1])
+                if w is not None and rnd.random() < 0.35:
+                    # an object that LIVES on a chunk, asked without naming the flag: chromosome coordinates are the default
+                    od = E.outcome(lambda: read_bed12(str(obj.to_bed12(name=nm))))
+                    ev.append(["bed", [blocks, st], [cds, st] if (cds and kind == "tx") else [[], "e"], 0, False, want, od, -1])
                 if rnd.random() < 0.5:
                     # the same object exported again (possibly after an export in the other mode): the record is the same
                     if w is not None and rnd.random() < 0.5:
